@@ -511,4 +511,82 @@ theorem lexTextBlock_blk (l : L) (hle : l.pos ≤ l.inp.size) : Blk l (lexTextBl
         rw [← hi]; apply f4; rw [hr]; simpa using hc10⟩
     · exact text_loop _ l _ _ h0
 
+/-- tracked loop of the string lexer: the bookkeeping pair stays true; on exit the pending rune
+    is the end token -/
+theorem value_loop (ae : Bool) (endTok : Option Nat) (T : List Tok) (fuel : Nat) :
+    ∀ (l : L) (r : Option Nat) (esc : Bool) (a b p : Nat) (l' : L) (a' b' : Nat),
+    Pend l r p → Tr l.inp T p a b → lexValueLoop ae endTok fuel l r esc a b = some (l', a', b') →
+    l'.core = l.core ∧ ∃ p', Pend l' endTok p' ∧ Tr l.inp T p' a' b' := by
+  induction fuel with
+  | zero => intro l r esc a b p l' a' b' _ _ h; simp [lexValueLoop] at h
+  | succ n ih =>
+    intro l r esc a b p l' a' b' hp htr h
+    simp only [lexValueLoop] at h
+    obtain ⟨f1, f2, f3, f4⟩ := hp.facts
+    split at h
+    · split at h
+      · simp at h
+      · obtain ⟨np, nc⟩ := next_spec l f2
+        obtain ⟨c1, _, _, _, _⟩ := core_fields nc
+        have := ih _ _ _ _ _ l.pos l' a' b' np (by rw [c1]; exact htr.step f1 f3 f4) h
+        rw [c1] at this
+        exact ⟨this.1.trans nc, this.2⟩
+    · rename_i hcond
+      simp only [Option.some.injEq, Prod.mk.injEq] at h
+      obtain ⟨rfl, rfl, rfl⟩ := h
+      have hr : r = endTok := by
+        cases ae <;> simp at hcond
+        · exact hcond
+        · exact hcond.1
+      subst hr
+      exact ⟨rfl, p, hp, htr⟩
+
+theorem block_loop (T : List Tok) (fuel : Nat) :
+    ∀ (l : L) (r : Option Nat) (a b p : Nat) (l' : L) (a' b' : Nat),
+    Pend l r p → Tr l.inp T p a b → blockLoop fuel l r a b = some (l', a', b') →
+    l'.core = l.core ∧ l'.peek 1 = some 47 ∧ ∃ p', Pend l' (some 42) p' ∧ Tr l.inp T p' a' b' := by
+  induction fuel with
+  | zero => intro l r a b p l' a' b' _ _ h; simp [blockLoop] at h
+  | succ n ih =>
+    intro l r a b p l' a' b' hp htr h
+    simp only [blockLoop] at h
+    obtain ⟨f1, f2, f3, f4⟩ := hp.facts
+    split at h
+    · split at h
+      · simp at h
+      · obtain ⟨np, nc⟩ := next_spec l f2
+        obtain ⟨c1, _, _, _, _⟩ := core_fields nc
+        have := ih _ _ _ _ l.pos l' a' b' np (by rw [c1]; exact htr.step f1 f3 f4) h
+        rw [c1] at this
+        exact ⟨this.1.trans nc, this.2⟩
+    · rename_i hcond
+      simp only [Option.some.injEq, Prod.mk.injEq] at h
+      obtain ⟨rfl, rfl, rfl⟩ := h
+      simp only [Bool.or_eq_true, bne_iff_ne, ne_eq, not_or, Decidable.not_not] at hcond
+      obtain ⟨hr, hpk⟩ := hcond
+      subst hr
+      exact ⟨rfl, hpk, p, hp, htr⟩
+
+theorem hash_loop (fuel : Nat) : ∀ (l0 l : L) (r : Option Nat), Scan l0 l r →
+    let res := hashLoop fuel l r
+    res.1.core = l0.core ∧ (res.2 = none ∨
+      (res.2 = some 10 ∧ ∃ p, Pend res.1 (some 10) p ∧ l0.pos ≤ p ∧ NoNl l0.inp l0.pos p)) := by
+  induction fuel with
+  | zero => intro l0 l r h; exact ⟨h.core, Or.inl rfl⟩
+  | succ n ih =>
+    intro l0 l r h
+    simp only [hashLoop]
+    split
+    · rename_i hc
+      simp only [Bool.and_eq_true, bne_iff_ne, ne_eq] at hc
+      cases r with
+      | none => exact absurd rfl hc.2
+      | some c => exact ih _ _ _ (h.next (by intro h'; apply hc.1; rw [h']))
+    · rename_i hc
+      simp only [Bool.and_eq_true, bne_iff_ne, ne_eq, not_and, Decidable.not_not] at hc
+      refine ⟨h.core, ?_⟩
+      by_cases h10 : r = some 10
+      · right; subst h10; exact ⟨rfl, h.ex⟩
+      · left; exact hc h10
+
 end Ecal.Lex
